@@ -13,6 +13,7 @@ from pv.monitors import c14
 
 ID = 'C08'
 TITLE = 'checkpoint / restore reproduces the uninterrupted run'
+ANCHORS = ['plumpy.process_states:Running.load_instance_state', 'plumpy.process_states:Waiting.load_instance_state', 'plumpy.workchains:_BlockStepper.load_instance_state', 'plumpy.workchains:_IfStepper.load_instance_state', 'plumpy.workchains:_WhileStepper.load_instance_state', 'plumpy.mixins:ContextMixin.load_instance_state', 'plumpy.processes:Process.recreate_from']
 LEVEL = 'exploration'
 TECHNIQUE = ('runtime monitoring by differential execution: every program / outline is run uninterrupted and again with subsets of its step '
              'boundaries as crash points (snapshot inside the state-entered notification, instance abandoned, bundle carried through pickle / a '
